@@ -247,11 +247,19 @@ static void vf_ks_base()
 }
 
 // neighbourhood: VF_NECH distinct ranks of the input data base, in arbitrary order
+// (first rank arbitrary, the others at distinct non-zero cyclic offsets from it: every injection is reached)
 static void vf_draw_nbgh()
 {
-  int r[VF_NECH];
-  for (int i = 0; i < VF_NECH; i++) r[i] = vf_range(0, VF_NS - 1);
-  for (int i = 0; i < VF_NECH; i++)
-    for (int j = 0; j < i; j++) vf_assume(r[i] != r[j]);
+  int r[VF_NECH], d[VF_NECH];
+  r[0] = vf_range(0, VF_NS - 1);
+  d[0] = 0;
+  for (int i = 1; i < VF_NECH; i++) d[i] = vf_range(1, VF_NS - 1);
+  for (int i = 1; i < VF_NECH; i++)
+    for (int j = 1; j < i; j++) vf_assume(d[i] != d[j]);
+  for (int i = 1; i < VF_NECH; i++)
+  {
+    r[i] = r[0] + d[i];
+    if (r[i] >= VF_NS) r[i] -= VF_NS;
+  }
   for (int i = 0; i < VF_NECH; i++) KS->_nbgh[i] = r[i];
 }
